@@ -352,6 +352,28 @@ class Assign(TreeFn):
           f'Assign should have output_keys, got {self.output_keys=}'
       )
 
+  def _num_input_rows(self, inputs: Any) -> int | None:
+    """Returns the number of rows of the selected inputs, None when unknown."""
+
+    def leaves(value):
+      # A tree of columns (e.g., SELF on a dict) has the rows of its leaves.
+      if isinstance(value, Mapping):
+        for child in value.values():
+          yield from leaves(child)
+      elif not isinstance(value, (str, bytes)):
+        yield value
+
+    for key, value in zip(self.input_keys, self._get_inputs(inputs)):
+      # A literal input is a constant, not a column of rows.
+      if isinstance(key, tree.Literal):
+        continue
+      for leaf in leaves(value):
+        try:
+          return iter_utils.batch_size(leaf)
+        except TypeError:
+          continue
+    return None
+
   def _assign_outputs(self, outputs: Any, inputs: Any) -> tree.TreeLike[_T]:
     """Assigns the outputs of a batch to the inputs they are paired with."""
     # Assigning to SELF replaces the inputs, there is nothing to align with.
@@ -359,9 +381,9 @@ class Assign(TreeFn):
     if self.batch_size and self._num_inputs and not to_self:
       # The outputs are rebatched to batch_size but the inputs are not: they
       # only belong together when the input has that very number of rows.
-      in_size = iter_utils.batch_size(self._get_inputs(inputs)[0])
+      in_size = self._num_input_rows(inputs)
       out_size = iter_utils.batch_size(outputs[0])
-      if in_size != out_size:
+      if in_size is not None and in_size != out_size:
         raise ValueError(
             f'Assign with {self.batch_size=} needs input batches of that many'
             f' rows: mismatch of {out_size} output rows and {in_size} input'
